@@ -498,7 +498,7 @@ class Evaluator:
         if isinstance(op, ast.NotEq):
             return not self.eq(a, b)
         if isinstance(op, (ast.In, ast.NotIn)):
-            if isinstance(b, (list, tuple)):
+            if isinstance(b, (list, tuple, set, frozenset)):
                 r = any(self.eq(a, x) for x in b)
             elif isinstance(b, (str, AStr)):
                 bs = self.as_astr(b)
